@@ -36,6 +36,10 @@ RULE = ("per transformation (xor or maj eq neq one lin(6 operators) atleast atmo
         "variables, repeated and opposite literals, unit clauses), arity 1..4, thresholds -1..k+1, random bipartite "
         "compression graphs (isolated left vertices, empty right side); plus a malformed stream (literal 0, literals "
         "beyond nvars, k <= 0, wrong graph size, unknown function) compared by outcome class only; "
+        "subst_hist: the input is ONE formula object with a history (harness/histlib.py: grown by clauses with fresh indices, raised "
+        "counts, new variables / groups, batches, header edits or by becoming its own transformation, and looked at on the way by "
+        "transformations, renderings, label lists, shuffles), minimal shapes per transformation x growth kind and random histories "
+        "judged after growth steps; "
         "distinct = distinct request line; non-trivial = the input formula has at least one non-empty clause")
 ASSUMPTIONS = [
     "input formulas are well formed (non-zero literals within the declared variable count) in the theorems; "
